@@ -614,6 +614,42 @@ func (f *c16Fixture) aclRequest(t interface{ Fatalf(string, ...any) }, s *c16Sec
 			c16Fail(t, cs, "%s %s with a valid client token: HTTP %d %s", r.Method, r.Path, resp.Code, resp.Panic)
 		}
 	}
+	// the same request with one character of a path parameter percent-encoded is the same request:
+	// an ACL entry (a deny in particular) applies to the resource, not to one spelling of it
+	if enc := c16EncodeOne(r); enc != r.Path && (v.Decision == "deny" || v.Decision == "allow") {
+		resp := s.do(r.Method, enc, "", "", token)
+		cs.Path, cs.Got = enc, resp.Code
+		kit.S().Class("percent-encoded-spelling", 1)
+		switch d := resp.decision(); {
+		case v.Decision == "deny" && d != "forbidden":
+			c16Fail(t, cs, "%s %s (= %s) was not refused (HTTP %d %s, want 403) although %s", r.Method, enc, r.Path, resp.Code, resp.Panic, v.Rule)
+		case v.Decision == "allow" && d != "passed":
+			c16Fail(t, cs, "%s %s (= %s) was refused (HTTP %d %s %.200s) although %s", r.Method, enc, r.Path, resp.Code, resp.Panic, resp.Body, v.Rule)
+		}
+	}
+}
+
+// c16EncodeOne percent-encodes the first letter of the second path segment when
+// that segment is a path PARAMETER of the registered route (a dataset name, a
+// job id ...): the router matches any spelling of a parameter, while a static
+// segment spelled differently is simply an unknown path (404 before any
+// authorisation, nothing is served).
+func c16EncodeOne(r c16Route) string {
+	path := r.Path
+	tsegs := strings.Split(r.Tmpl, "/")
+	if !r.Reg || len(tsegs) < 3 || !strings.HasPrefix(tsegs[2], ":") {
+		return path
+	}
+	i := strings.Index(path[1:], "/")
+	if i < 0 || i+2 >= len(path) {
+		return path
+	}
+	at := i + 2
+	c := path[at]
+	if !(c >= 'a' && c <= 'z' || c >= 'A' && c <= 'Z') {
+		return path
+	}
+	return path[:at] + fmt.Sprintf("%%%02x", c) + path[at+1:]
 }
 
 func TestVerif_C16(t *testing.T) {
